@@ -4,14 +4,14 @@
    expected results (so that the harness can log exact integers). *)
 EXTENDS Interpolation, TLC, Json, IOUtils, SequencesExt, FiniteSets
 Thorough == IOEnv.TIER = "thorough"
-K == IF Thorough THEN 5 ELSE 4
+K == 4
 RECURSIVE Cum(_, _)
 Cum(g, i) == IF i = 0 THEN 0 ELSE g[i] + Cum(g, i - 1)
 AllTables == UNION {{[xs |-> [i \in 1..k |-> Cum(g, i - 1)], ys |-> y] : g \in [1..(k - 1) -> 1..2], y \in [1..k -> -1..1]} : k \in 1..K}
 \* quick tier: all tables up to 3 nodes, and the 4-node tables with y1 = 0, y2 >= 0 and a non-uniform mesh
-\* thorough tier: all tables up to 4 nodes, and the 5-node tables with y1 = 0, y2 >= 0, y5 # 0 and a non-uniform mesh
-\* (all 5-node tables take TLC more than an hour of exact spline solves)
-Tables == IF Thorough THEN {t \in AllTables : Len(t.xs) <= 4 \/ (t.ys[1] = 0 /\ t.ys[2] >= 0 /\ t.ys[5] # 0 /\ t.xs[5] \in {5, 6, 7})}
+\* thorough tier: all tables up to 4 nodes (5-node tables: the exact rational spline solves overflow TLC's 32-bit integers
+\* on some tables, and all of them take more than an hour)
+Tables == IF Thorough THEN AllTables
           ELSE {t \in AllTables : Len(t.xs) <= 3 \/ (t.ys[1] = 0 /\ t.ys[2] >= 0 /\ t.xs[4] \in {4, 5})}
 Queries(xs) == {<<p, 2>> : p \in (2 * xs[1] - 2)..(2 * xs[Len(xs)] + 2)}        \* p/2 (not normalised: the harness divides)
 Q(q) == RNorm(q[1], q[2])
